@@ -226,7 +226,9 @@ class WSGIContainer:
             "REQUEST_METHOD": request.method,
             "SCRIPT_NAME": "",
             "PATH_INFO": to_wsgi_str(
-                escape.url_unescape(request.path, encoding=None, plus=False)
+                escape.url_unescape(
+                    request.path.encode("latin1"), encoding=None, plus=False
+                )
             ),
             "QUERY_STRING": request.query,
             "REMOTE_ADDR": request.remote_ip,
